@@ -31,6 +31,7 @@ type HarnessResult struct {
 	Terms        int               `json:"terms"`
 	Races        map[string]string `json:"races_observed,omitempty"`
 	Bounds       map[string]int    `json:"bounds"`
+	RefineRounds int               `json:"refine_rounds"`
 }
 
 type ViolationOut struct {
